@@ -32,6 +32,10 @@ func runWHistory(h WHistory, scratch string, seed int64) ([]wworld.Event, error)
 	dir := filepath.Join(scratch, fmt.Sprintf("wh%d", h.ID))
 	os.RemoveAll(dir)
 	ww := wworld.New(h.ID, dir, seed+int64(h.ID))
+	if len(h.Ops) > 25 {
+		// long histories use many counters per keyset
+		ww.DeriveUpTo = 700
+	}
 	defer ww.Close()
 	for _, m := range h.Mints {
 		if err := ww.AddMint(m.Name, m.Fee, m.Policy); err != nil {
